@@ -41,7 +41,9 @@ ASSUMPTIONS = [
 ]
 MODES = ['always', 'nonlocal', 'remote', 'never']
 KINDS = ['str', 'bytes', 'StringIO', 'BytesIO', 'binary_file', 'nonseek_buffered', 'nonseek_raw', 'path',
-         'file_url', 'remote_url', 'text_remote_base', 'remote_url_local_base', 'path_remote_base']
+         'file_url', 'remote_url', 'text_remote_base', 'remote_url_local_base', 'path_remote_base',
+         # remote URLs WITHOUT a path: 'http://host' and 'http://host?query' (their "directory" is just 'http:')
+         'remote_url_no_path', 'remote_url_query']
 _EVENTS = None
 _HOOKED = False
 
@@ -123,7 +125,7 @@ def applies(mode, kind):
     # a source that has its OWN location is judged by that location, whatever base_url says (a remote schema
     # included by a local one is still remote); base_url only stands in for sources without a location
     local_file = kind in ('path', 'file_url', 'binary_file', 'path_remote_base')
-    remote = kind in ('remote_url', 'text_remote_base', 'remote_url_local_base')
+    remote = kind in ('remote_url', 'text_remote_base', 'remote_url_local_base', 'remote_url_no_path', 'remote_url_query')
     if mode == 'remote':
         return remote
     if mode == 'nonlocal':
@@ -185,6 +187,14 @@ class Env:
             return NonSeekRaw(data), {}, None
         if kind == 'text_remote_base':
             return text, {'base_url': 'http://stub/dir/'}, None
+        if kind == 'remote_url_no_path':
+            name = 'd%d.xml' % self.n           # the host name is the table key
+            Stub.table[name] = data
+            return 'http://' + name, {'opener': self.opener}, None
+        if kind == 'remote_url_query':
+            name = 'stub?doc=d%d.xml' % self.n
+            Stub.table[name] = data
+            return 'http://' + name, {'opener': self.opener}, None
         if kind in ('remote_url', 'remote_url_local_base'):
             name = 'd%d.xml' % self.n
             Stub.table[name] = data
